@@ -221,6 +221,15 @@ Inductive wr :=
 | WPV (h r : N) (c : sparse_coll)
 | WPC (h r : N) (c : sparse_coll).
 
+(** View-manager events, in the order the kernel raises them (consumed by Model/MirrorMgr.v):
+    a view was updated (Mark*ViewUpdated), the voting view was snapshotted as the nil-voted round,
+    the voting round was jumped, the height the state machine may be waiting on was committed. *)
+Inductive mev :=
+| EvMark (vid : N) (v : view)
+| EvNil (v : view)
+| EvJump (v : view)
+| EvCommitted (h : N).
+
 Record kstate := mk_k {
   k_init_h : N; k_init_vs : valset;
   k_com : view; k_vot : view; k_nxt : view;
@@ -230,20 +239,24 @@ Record kstate := mk_k {
   st_rounds : list (N * N * rentry);            (* round store *)
   st_replayed : list hdr;
   st_vals : list (bytes * list N);              (* validator store: pubkey hash -> keys *)
-  st_log : list wr                              (* every store write call, in the order issued *)
+  st_log : list wr;                             (* every store write call, in the order issued *)
+  st_ev : list mev                              (* every view-manager event, in the order raised *)
 }.
 
-Definition set_com (s : kstate) (v : view) := mk_k (k_init_h s) (k_init_vs s) v (k_vot s) (k_nxt s) (k_chdr s) (st_nhr s) (st_hdrs s) (st_rounds s) (st_replayed s) (st_vals s) (st_log s).
-Definition set_vot (s : kstate) (v : view) := mk_k (k_init_h s) (k_init_vs s) (k_com s) v (k_nxt s) (k_chdr s) (st_nhr s) (st_hdrs s) (st_rounds s) (st_replayed s) (st_vals s) (st_log s).
-Definition set_nxt (s : kstate) (v : view) := mk_k (k_init_h s) (k_init_vs s) (k_com s) (k_vot s) v (k_chdr s) (st_nhr s) (st_hdrs s) (st_rounds s) (st_replayed s) (st_vals s) (st_log s).
-Definition set_chdr (s : kstate) (h : option hdr) := mk_k (k_init_h s) (k_init_vs s) (k_com s) (k_vot s) (k_nxt s) h (st_nhr s) (st_hdrs s) (st_rounds s) (st_replayed s) (st_vals s) (st_log s).
-Definition set_nhr (s : kstate) (x : N * N * N * N) := mk_k (k_init_h s) (k_init_vs s) (k_com s) (k_vot s) (k_nxt s) (k_chdr s) x (st_hdrs s) (st_rounds s) (st_replayed s) (st_vals s) (st_log s).
-Definition set_hdrs (s : kstate) (x : list (N * (hdr * cproof))) := mk_k (k_init_h s) (k_init_vs s) (k_com s) (k_vot s) (k_nxt s) (k_chdr s) (st_nhr s) x (st_rounds s) (st_replayed s) (st_vals s) (st_log s).
-Definition set_rounds (s : kstate) (x : list (N * N * rentry)) := mk_k (k_init_h s) (k_init_vs s) (k_com s) (k_vot s) (k_nxt s) (k_chdr s) (st_nhr s) (st_hdrs s) x (st_replayed s) (st_vals s) (st_log s).
-Definition set_replayed (s : kstate) (x : list hdr) := mk_k (k_init_h s) (k_init_vs s) (k_com s) (k_vot s) (k_nxt s) (k_chdr s) (st_nhr s) (st_hdrs s) (st_rounds s) x (st_vals s) (st_log s).
+Definition set_com (s : kstate) (v : view) := mk_k (k_init_h s) (k_init_vs s) v (k_vot s) (k_nxt s) (k_chdr s) (st_nhr s) (st_hdrs s) (st_rounds s) (st_replayed s) (st_vals s) (st_log s) (st_ev s).
+Definition set_vot (s : kstate) (v : view) := mk_k (k_init_h s) (k_init_vs s) (k_com s) v (k_nxt s) (k_chdr s) (st_nhr s) (st_hdrs s) (st_rounds s) (st_replayed s) (st_vals s) (st_log s) (st_ev s).
+Definition set_nxt (s : kstate) (v : view) := mk_k (k_init_h s) (k_init_vs s) (k_com s) (k_vot s) v (k_chdr s) (st_nhr s) (st_hdrs s) (st_rounds s) (st_replayed s) (st_vals s) (st_log s) (st_ev s).
+Definition set_chdr (s : kstate) (h : option hdr) := mk_k (k_init_h s) (k_init_vs s) (k_com s) (k_vot s) (k_nxt s) h (st_nhr s) (st_hdrs s) (st_rounds s) (st_replayed s) (st_vals s) (st_log s) (st_ev s).
+Definition set_nhr (s : kstate) (x : N * N * N * N) := mk_k (k_init_h s) (k_init_vs s) (k_com s) (k_vot s) (k_nxt s) (k_chdr s) x (st_hdrs s) (st_rounds s) (st_replayed s) (st_vals s) (st_log s) (st_ev s).
+Definition set_hdrs (s : kstate) (x : list (N * (hdr * cproof))) := mk_k (k_init_h s) (k_init_vs s) (k_com s) (k_vot s) (k_nxt s) (k_chdr s) (st_nhr s) x (st_rounds s) (st_replayed s) (st_vals s) (st_log s) (st_ev s).
+Definition set_rounds (s : kstate) (x : list (N * N * rentry)) := mk_k (k_init_h s) (k_init_vs s) (k_com s) (k_vot s) (k_nxt s) (k_chdr s) (st_nhr s) (st_hdrs s) x (st_replayed s) (st_vals s) (st_log s) (st_ev s).
+Definition set_replayed (s : kstate) (x : list hdr) := mk_k (k_init_h s) (k_init_vs s) (k_com s) (k_vot s) (k_nxt s) (k_chdr s) (st_nhr s) (st_hdrs s) (st_rounds s) x (st_vals s) (st_log s) (st_ev s).
 
 Definition log_w (s : kstate) (w : wr) : kstate :=
-  mk_k (k_init_h s) (k_init_vs s) (k_com s) (k_vot s) (k_nxt s) (k_chdr s) (st_nhr s) (st_hdrs s) (st_rounds s) (st_replayed s) (st_vals s) (st_log s ++ [w]).
+  mk_k (k_init_h s) (k_init_vs s) (k_com s) (k_vot s) (k_nxt s) (k_chdr s) (st_nhr s) (st_hdrs s) (st_rounds s) (st_replayed s) (st_vals s) (st_log s ++ [w]) (st_ev s).
+
+Definition ev_w (s : kstate) (e : mev) : kstate :=
+  mk_k (k_init_h s) (k_init_vs s) (k_com s) (k_vot s) (k_nxt s) (k_chdr s) (st_nhr s) (st_hdrs s) (st_rounds s) (st_replayed s) (st_vals s) (st_log s) (st_ev s ++ [e]).
 
 Definition kpos_of (s : kstate) : kpos :=
   mk_kpos (v_h (k_vot s)) (v_r (k_vot s)) (v_h (k_com s)) (v_r (k_com s)).
@@ -310,10 +323,13 @@ Definition increment_voting_round (s : kstate) : kstate :=
   let old := k_vot s in
   let newnxt := mk_view (v_h old) (wrap32 (v_r newvot + 1)) (v_vals old) [] [] [] (v_pcp old)
                         (sum_reset_same_height (v_sum old)) 1 in
-  set_nxt (set_vot s newvot) newnxt.
+  ev_w (ev_w (set_nxt (set_vot s newvot) newnxt) (EvMark ViewIDVoting newvot)) (EvMark ViewIDNextRound newnxt).
 
-Definition advance_voting_round (s : kstate) : kstate := update_observers (increment_voting_round s).
-Definition jump_voting_round (s : kstate) : kstate := update_observers (increment_voting_round s).
+Definition advance_voting_round (s : kstate) : kstate :=
+  update_observers (increment_voting_round (ev_w s (EvNil (k_vot s)))).
+Definition jump_voting_round (s : kstate) : kstate :=
+  let s1 := increment_voting_round s in
+  update_observers (ev_w s1 (EvJump (k_vot s1))).
 
 Definition hstore_set (l : list (N * (hdr * cproof))) (h : N) (x : hdr * cproof) :=
   (h, x) :: filter (fun e => negb (fst e =? h)) l.
@@ -327,7 +343,9 @@ Definition shift_voting_to_committing (s : kstate) (voted : hdr) : kstate :=
   let avail := sum_pows (vs_pows nv) in
   let vot := mk_view newh 0 nv [] [] [] pcp (mk_sum avail 0 0 [] [] [] []) 1 in
   let nxt := mk_view newh 1 nv [] [] [] pcp (mk_sum avail 0 0 [] [] [] []) 1 in
-  let s1 := set_chdr (set_nxt (set_vot (set_com s com) vot) nxt) (Some voted) in
+  let s0 := ev_w (ev_w (ev_w (ev_w (set_nxt (set_vot (set_com s com) vot) nxt)
+              (EvCommitted (v_h (k_com s)))) (EvMark ViewIDCommitting com)) (EvMark ViewIDVoting vot)) (EvMark ViewIDNextRound nxt) in
+  let s1 := set_chdr s0 (Some voted) in
   let s2 := log_w (set_hdrs s1 (hstore_set (st_hdrs s1) (hd_height voted) (voted, pcp))) (WHdr (hd_height voted) (voted, pcp)) in
   update_observers s2.
 
@@ -385,7 +403,8 @@ Definition backfill_commit (s : kstate) (p : ph) : kstate :=
     let com' := bump (with_sum com1 (sum_set_precommits (v_sum com1) (vs_pows (v_vals com1)) pc')) in
     let coll := map_to_sparse (vs_pkh (v_vals com)) pc' in
     let rs := rs_overwrite_pc (st_rounds s) (sub64 (hd_height (ph_hdr p)) 1) (cp_round pcp) coll in
-    log_w (set_rounds (set_com s com') rs) (WPC (sub64 (hd_height (ph_hdr p)) 1) (cp_round pcp) coll)
+    ev_w (log_w (set_rounds (set_com s com') rs) (WPC (sub64 (hd_height (ph_hdr p)) 1) (cp_round pcp) coll))
+         (EvMark ViewIDCommitting com')
   else set_com s (with_pc com pc').
 
 Definition add_ph (s : kstate) (p : ph) : res kstate :=
@@ -395,7 +414,7 @@ Definition add_ph (s : kstate) (p : ph) : res kstate :=
   let v := get_view s vid in
   if existsb (fun q => sigd_eqb (ph_sig q) (ph_sig p)) (v_phs v) then Ok s else
   let s1 := put_view s vid (bump (with_phs v (v_phs v ++ [p]))) in
-  let s2 := log_w (set_rounds s1 (rs_save_ph (st_rounds s1) p)) (WPH p) in
+  let s2 := ev_w (log_w (set_rounds s1 (rs_save_ph (st_rounds s1) p)) (WPH p)) (EvMark vid (get_view s1 vid)) in
   if negb ((vid =? ViewIDVoting) || (vid =? ViewIDNextRound)) then Ok s2 else
   let s3 := backfill_commit s2 p in
   if (vid =? ViewIDVoting) then
@@ -517,9 +536,9 @@ Definition apply_votes (kind : N) (s : kstate) (vid : N) (h r : N) (ups : pmap) 
   let v2 := bump (with_sum v1 sm') in
   let s1 := put_view s vid v2 in
   let coll := map_to_sparse (vs_pkh (v_vals v2)) votes' in
-  let s2 := log_w (set_rounds s1 (if kind =? KPrevote then rs_overwrite_pv (st_rounds s1) h r coll
+  let s2 := ev_w (log_w (set_rounds s1 (if kind =? KPrevote then rs_overwrite_pv (st_rounds s1) h r coll
                                   else rs_overwrite_pc (st_rounds s1) h r coll))
-                  (if kind =? KPrevote then WPV h r coll else WPC h r coll) in
+                  (if kind =? KPrevote then WPV h r coll else WPC h r coll)) (EvMark vid v2) in
   if kind =? KPrevote then
     if vid =? ViewIDNextRound then check_prevote_shift s2 else Ok s2
   else
@@ -649,7 +668,8 @@ Definition init_view (h r : N) (vs : valset) : view :=
 
 Definition init_state (init_h : N) (vs : valset) : kstate :=
   mk_k init_h vs zero_view (init_view init_h 0 vs) (init_view init_h 1 vs) None
-       (init_h, 0, 0, 0) [] [] [] [(vs_pkh vs, vs_keys vs)] [WNhr (init_h, 0, 0, 0); WNhr (init_h, 0, 0, 0)].
+       (init_h, 0, 0, 0) [] [] [] [(vs_pkh vs, vs_keys vs)] [WNhr (init_h, 0, 0, 0); WNhr (init_h, 0, 0, 0)]
+       [EvMark ViewIDVoting (init_view init_h 0 vs); EvMark ViewIDNextRound (init_view init_h 1 vs)].
 
 (** * Operations and runs *)
 
@@ -803,7 +823,11 @@ Definition restart (ih : N) (ivs : valset) (st : stores) (vals : list (bytes * l
   bind (load_initial_view (sr_rounds st) vh (wrap32 (vr + 1)) vs) (fun nxt0 =>
   let vot := bump (with_pcp vot0 committing_proof) in
   let nxt := bump (with_pcp nxt0 committing_proof) in
-  let s0 := mk_k ih ivs com vot nxt chdr (if uninit then (ih, 0, 0, 0) else sr_nhr st) (sr_hdrs st) (sr_rounds st) [] vals log1 in
+  (* the managers take their copies when the views are loaded, BEFORE the previous commit proofs
+     are attached to the views (kernel.go: Mark*ViewUpdated precedes the PrevCommitProof assignment) *)
+  let evs := (match chdr with Some _ => [EvMark ViewIDCommitting (with_pcp com empty_cproof)] | None => [] end)
+             ++ [EvMark ViewIDVoting (bump vot0); EvMark ViewIDNextRound (bump nxt0)] in
+  let s0 := mk_k ih ivs com vot nxt chdr (if uninit then (ih, 0, 0, 0) else sr_nhr st) (sr_hdrs st) (sr_rounds st) [] vals log1 evs in
   bind (recheck_view_shifts s0) (fun s1 => Ok (update_observers s1)))))).
 
 (** * Operations and runs *)
